@@ -2,7 +2,9 @@
 """Regenerate every Gen/*.lean file from /repo's working tree (also done by each check for what it needs)."""
 import gen_pyfuns
 import gen_dict
+import gen_commands
 
 if __name__ == "__main__":
     print("PyFuns:", gen_pyfuns.generate()[:2])
     print("Dictionary:", gen_dict.generate()[0])
+    print("Commands:", gen_commands.generate()[0])
